@@ -1,6 +1,7 @@
 /-
   Progress of the closed loop, round-boundary classes 1, 2, 4, 30 and the terminal class 40: one fair round from a state of the
-  class leads to a state of the invariant with a strictly smaller measure (`round_cls_X`), and keeps `doneInv` (`done_cls_X`).
+  class leads to a state of the invariant with a strictly smaller measure (`round_cls_X`), and keeps `doneInv` (`done_cls_X`)
+  and `polInv` (`pol_cls_X`).
 -/
 import RV.Lemmas.ClosedLoopLiveBase
 namespace RV.Lemmas.ClosedLoop
@@ -237,13 +238,15 @@ theorem lG1_cls_phase (s : CS) (k : Nat) (hc : cls s = k) (hk : k = 1 ∨ k = 2 
 /-! ### evaluating `cls` and `mu` -/
 
 theorem lG1_cls_healthy (s : CS) (w : CWl) (hw : s.wl = some w) (hph : s.ro.phase = .healthy) :
-    cls s = if w.inProgressAnno then (if w.generation = w.observedGeneration then 2 else 1)
+    cls s = if w.inProgressAnno then
+        (if w.updateRevision == w.currentRevision then 0 else if w.generation = w.observedGeneration then 2
+         else if w.updated < w.replicas then 1 else 0)
       else if s.br.isNone && (match s.ro.sub with | some sub => sub.state != .paused | none => false) &&
               csObserve s.ro (roWl w) == s.ro then 40 else 0 := by
   unfold cls; rw [hw]; dsimp only; rw [hph]; rfl
 
 theorem lG1_cls_init (s : CS) (w : CWl) (hw : s.wl = some w) (hph : s.ro.phase = .progressing) (hr : s.ro.reason = .initializing) :
-    cls s = if s.ro.condAge = .fresh then 0 else 4 := by
+    cls s = if s.ro.condAge = .fresh || w.updateRevision == w.currentRevision then 0 else 4 := by
   unfold cls; rw [hw]; dsimp only; rw [hph, hr]
 
 theorem lG1_cls_completed (s : CS) (w : CWl) (hw : s.wl = some w) (hph : s.ro.phase = .progressing) (hr : s.ro.reason = .completed) :
@@ -252,7 +255,7 @@ theorem lG1_cls_completed (s : CS) (w : CWl) (hw : s.wl = some w) (hph : s.ro.ph
 
 theorem lG1_cls_roll_init (s : CS) (w : CWl) (sub : Sub) (hw : s.wl = some w) (hph : s.ro.phase = .progressing)
     (hr : s.ro.reason = .inRolling) (hs : s.ro.sub = some sub) (hst : sub.state = .init) (hbr : s.br = none) :
-    cls s = if sub.curIdx = 1 then 5 else 0 := by
+    cls s = if sub.curIdx = 1 && w.updateRevision != w.currentRevision then 5 else 0 := by
   unfold cls; rw [hw]; dsimp only; rw [hph, hr]; dsimp only; rw [hs]; dsimp only; rw [hst]; dsimp only; rw [hbr]
 
 theorem lG1_mu_healthy (s : CS) (w : CWl) (hw : s.wl = some w) (hph : s.ro.phase = .healthy) :
@@ -372,24 +375,62 @@ theorem lG1_next_steps (s : CS) (ro' : Rollout) (w : CWl) : (lG1_next s ro' w).r
 
 /-! ### the classes -/
 
+theorem lG1_cls_12 (s : CS) (k : Nat) (hc : cls s = k) (hk : k = 1 ∨ k = 2) :
+    ∃ w, s.wl = some w ∧ s.ro.phase = .healthy ∧ w.inProgressAnno = true ∧ w.updateRevision ≠ w.currentRevision ∧
+      (w.generation = w.observedGeneration ↔ k = 2) ∧ (k = 1 → w.updated < w.replicas) := by
+  obtain ⟨w, hw, hph⟩ := lG1_cls_h s k hc (by omega)
+  rw [lG1_cls_healthy s w hw hph] at hc
+  refine ⟨w, hw, hph, ?_⟩
+  cases ha : w.inProgressAnno
+  · rw [ha] at hc; simp only [Bool.false_eq_true, if_false] at hc; exfalso; (repeat' split at hc) <;> omega
+  · rw [ha] at hc
+    simp only [if_true] at hc
+    split at hc
+    · omega
+    · rename_i hne
+      refine ⟨rfl, by simpa using hne, ?_⟩
+      split at hc
+      · rename_i hgen; exact ⟨⟨fun _ => hc.symm, fun _ => hgen⟩, fun g => by omega⟩
+      · rename_i hgen
+        split at hc
+        · rename_i hu; exact ⟨⟨fun g => absurd g hgen, fun g => by omega⟩, fun _ => hu⟩
+        · omega
+
+theorem lG1_cfg_R (s : CS) (w : CWl) (hw : s.wl = some w) (h : liveCfg s = true) : 0 < w.replicas ∧ w.paused = false := by
+  unfold liveCfg at h
+  rw [hw] at h
+  simp only [Bool.and_eq_true, decide_eq_true_eq, Bool.not_eq_true'] at h
+  exact ⟨h.2.1.1.1, h.2.1.2⟩
+
+/-- a workload held back at 100 % with pods still to update keeps its current revision -/
+theorem lG1_envWl_rev (w : CWl) (hheld : w.partition = some (.pct 100)) (hR : 0 < w.replicas) (hu : w.updated < w.replicas)
+    (hne : w.updateRevision ≠ w.currentRevision) : (envWl w).updateRevision ≠ (envWl w).currentRevision := by
+  have hlt : lG1_upd w < w.replicas := by
+    have ha : lG1_allowed w ≤ (if w.updated < 0 then 0 else w.updated) := by
+      unfold lG1_allowed
+      rw [hheld]
+      dsimp only
+      rw [RV.Lemmas.ClosedLoop.scaled_pct100]
+      split <;> split <;> omega
+    unfold lG1_upd
+    split at ha <;> split <;> omega
+  rw [lG1_envWl_ne w hne]
+  dsimp only
+  rw [if_neg (by omega)]
+  exact hne
+
 theorem lG1_r1 (s : CS) (h : liveInv s = true) (hc : cls s = 1) :
-    ∃ s', round s = some s' ∧ liveInv s' = true ∧ mu s' < mu s ∧ 12 < mu s' := by
+    ∃ s', round s = some s' ∧ s'.br = none ∧ mu s' < mu s ∧ 12 < mu s' ∧ liveInv s' = true := by
   obtain ⟨hf, hcfg, _, _⟩ := (liveInv_iff s).1 h
-  obtain ⟨w, hw, hph⟩ := lG1_cls_h s 1 hc (Or.inl rfl)
+  obtain ⟨w, hw, hph, hanno, hne, hgen, hu⟩ := lG1_cls_12 s 1 hc (Or.inl rfl)
+  have hu : w.updated < w.replicas := hu rfl
+  have hgen : w.generation ≠ w.observedGeneration := fun g => by have := hgen.1 g; omega
   obtain ⟨hgone, hg, w', hw', hwok, hmono, hbro, hpi⟩ := fwd_parts s hf
   rw [hw] at hw'; cases hw'
-  rw [lG1_cls_healthy s w hw hph] at hc
-  have hanno : w.inProgressAnno = true := by
-    cases ha : w.inProgressAnno
-    · rw [ha] at hc; simp only [Bool.false_eq_true, if_false] at hc; (repeat' split at hc) <;> omega
-    · rfl
-  have hgen : w.generation ≠ w.observedGeneration := by
-    intro hgen
-    rw [hanno, if_pos rfl, if_pos hgen] at hc
-    omega
   rw [phaseInv_healthy s w hph] at hpi
-  simp only [Bool.and_eq_true, Option.isNone_iff_eq_none] at hpi
+  simp only [Bool.and_eq_true, Option.isNone_iff_eq_none, hanno, Bool.not_true, Bool.false_or] at hpi
   have hbr : s.br = none := hpi.1
+  have hheld := (held_iff w).1 hpi.2
   have hcons : (roWl w).consistent = false := by unfold roWl; simp [hgen]
   have hrec := reconcile_wait (roWorld s) (roWl w) hg (world_wl s w hw) hcons
   have hro := lG1_stepRo_status s _ hgone hrec rfl rfl rfl rfl rfl
@@ -398,32 +439,30 @@ theorem lG1_r1 (s : CS) (h : liveInv s = true) (hc : cls s = 1) :
   have hanno' : (envWl w).inProgressAnno = true := (envWl_frame w).2.2.2.2.trans hanno
   have hgen' : (envWl w).generation = (envWl w).observedGeneration := by
     rw [(lG1_envWl_gen w).1, (lG1_envWl_gen w).2]
-  have hcls : cls (lG1_next s s.ro w) = 2 := by
-    rw [lG1_cls_healthy _ (envWl w) rfl hph', hanno', if_pos rfl, if_pos hgen']
-  refine ⟨_, hround, (liveInv_iff _).2 ⟨hfwd, lG1_next_cfg s s.ro w hw hcfg rfl rfl, by rw [hcls]; decide,
-    Or.inr (lG1_next_boundary s s.ro w hwok)⟩, ?_, ?_⟩
+  refine ⟨_, hround, rfl, ?_, ?_, ?_⟩
   · rw [lG1_mu_healthy _ (envWl w) rfl hph', lG1_mu_healthy s w hw hph, hanno', hanno, if_pos rfl, if_pos rfl, if_pos hgen',
       if_neg hgen, lG1_next_steps]
     omega
   · rw [lG1_mu_healthy _ (envWl w) rfl hph', hanno', if_pos rfl]
     omega
+  · have hne' := lG1_envWl_rev w hheld (lG1_cfg_R s w hw hcfg).1 hu hne
+    have hcls : cls (lG1_next s s.ro w) = 2 := by
+      rw [lG1_cls_healthy _ (envWl w) rfl hph', hanno', if_pos rfl, if_neg (by simpa using hne'), if_pos hgen']
+    exact (liveInv_iff _).2 ⟨hfwd, lG1_next_cfg s s.ro w hw hcfg rfl rfl, by rw [hcls]; decide,
+      Or.inr (lG1_next_boundary s s.ro w hwok)⟩
 
 theorem lG1_r2 (s : CS) (h : liveInv s = true) (hc : cls s = 2) :
-    ∃ s', round s = some s' ∧ liveInv s' = true ∧ mu s' < mu s ∧ 12 < mu s' := by
-  obtain ⟨hf, hcfg, _, _⟩ := (liveInv_iff s).1 h
-  obtain ⟨w, hw, hph⟩ := lG1_cls_h s 2 hc (Or.inr (Or.inl rfl))
+    ∃ s', round s = some s' ∧ liveInv s' = true ∧ mu s' < mu s ∧ 12 < mu s' ∧ s'.br = none := by
+  obtain ⟨hf, hcfg, _, hb⟩ := (liveInv_iff s).1 h
+  have hb : atBoundary s = true := by
+    rcases hb with hb | hb
+    · omega
+    · exact hb
+  obtain ⟨w, hw, hph, hanno, hne, hgen, _⟩ := lG1_cls_12 s 2 hc (Or.inr rfl)
+  have hgen : w.generation = w.observedGeneration := hgen.2 rfl
+  have henv := (lG1_boundary s w hw hb).1
   obtain ⟨hgone, hg, w', hw', hwok, hmono, hbro, hpi⟩ := fwd_parts s hf
   rw [hw] at hw'; cases hw'
-  rw [lG1_cls_healthy s w hw hph] at hc
-  have hanno : w.inProgressAnno = true := by
-    cases ha : w.inProgressAnno
-    · rw [ha] at hc; simp only [Bool.false_eq_true, if_false] at hc; (repeat' split at hc) <;> omega
-    · rfl
-  have hgen : w.generation = w.observedGeneration := by
-    apply Classical.byContradiction
-    intro hgen
-    rw [hanno, if_pos rfl, if_neg hgen] at hc
-    omega
   rw [phaseInv_healthy s w hph] at hpi
   simp only [Bool.and_eq_true, Option.isNone_iff_eq_none] at hpi
   have hbr : s.br = none := hpi.1
@@ -445,10 +484,11 @@ theorem lG1_r2 (s : CS) (h : liveInv s = true) (hc : cls s = 2) :
     rw [show (lG1_next s R w).ro.condAge = ageAge R.condAge from t5, hro']
     show ageAge Age.fresh ≠ Age.fresh
     decide
+  have hne' : (envWl w).updateRevision ≠ (envWl w).currentRevision := by rw [henv]; exact hne
   have hcls : cls (lG1_next s R w) = 4 := by
-    rw [lG1_cls_init _ (envWl w) rfl hph' hr', if_neg hage']
+    rw [lG1_cls_init _ (envWl w) rfl hph' hr', if_neg (by simp [hage', hne'])]
   refine ⟨_, hround, (liveInv_iff _).2 ⟨hfwd, lG1_next_cfg s R w hw hcfg hst htr, by rw [hcls]; decide,
-    Or.inr (lG1_next_boundary s R w hwok)⟩, ?_, ?_⟩
+    Or.inr (lG1_next_boundary s R w hwok)⟩, ?_, ?_, rfl⟩
   · rw [lG1_mu_init _ (envWl w) rfl hph' hr', lG1_mu_healthy s w hw hph, hanno, if_pos rfl, if_pos hgen,
       if_neg hage', lG1_next_steps, hst]
     omega
@@ -456,15 +496,18 @@ theorem lG1_r2 (s : CS) (h : liveInv s = true) (hc : cls s = 2) :
     omega
 
 theorem lG1_cls_4 (s : CS) (hc : cls s = 4) :
-    ∃ w, s.wl = some w ∧ s.ro.phase = .progressing ∧ s.ro.reason = .initializing ∧ s.ro.condAge ≠ .fresh := by
+    ∃ w, s.wl = some w ∧ s.ro.phase = .progressing ∧ s.ro.reason = .initializing ∧ s.ro.condAge ≠ .fresh ∧
+      w.updateRevision ≠ w.currentRevision := by
   obtain ⟨w, hw, hp⟩ := lG1_cls_phase s 4 hc (by omega)
   refine ⟨w, hw, ?_⟩
   rcases hp with hp | ⟨hp, hr | hr⟩
   · rw [lG1_cls_healthy s w hw hp] at hc; (repeat' split at hc) <;> omega
-  · refine ⟨hp, hr, ?_⟩
-    intro hage
-    rw [lG1_cls_init s w hw hp hr, if_pos hage] at hc
-    omega
+  · rw [lG1_cls_init s w hw hp hr] at hc
+    split at hc
+    · omega
+    · rename_i hcond
+      simp only [Bool.or_eq_true, decide_eq_true_eq, beq_iff_eq, not_or] at hcond
+      exact ⟨hp, hr, hcond.1, hcond.2⟩
   · rw [lG1_cls_completed s w hw hp hr] at hc; split at hc <;> omega
 
 theorem lG1_cls_30 (s : CS) (hc : cls s = 30) :
@@ -488,9 +531,9 @@ theorem lG1_cfg_tr (s : CS) (h : liveCfg s = true) : s.ro.hasTraffic = false := 
   exact h.1.1
 
 theorem lG1_r4 (s : CS) (h : liveInv s = true) (hc : cls s = 4) :
-    ∃ s', round s = some s' ∧ liveInv s' = true ∧ mu s' < mu s ∧ 12 < mu s' := by
+    ∃ s', round s = some s' ∧ liveInv s' = true ∧ mu s' < mu s ∧ 12 < mu s' ∧ s'.br = none := by
   obtain ⟨hf, hcfg, _, hb⟩ := (liveInv_iff s).1 h
-  obtain ⟨w, hw, hph, hr, hage⟩ := lG1_cls_4 s hc
+  obtain ⟨w, hw, hph, hr, hage, hne⟩ := lG1_cls_4 s hc
   have hb : atBoundary s = true := by
     rcases hb with hb | hb
     · omega
@@ -500,7 +543,8 @@ theorem lG1_r4 (s : CS) (h : liveInv s = true) (hc : cls s = 4) :
   rw [phaseInv_init s w hph hr] at hpi
   simp only [Bool.and_eq_true, Option.isNone_iff_eq_none] at hpi
   have hbr : s.br = none := hpi.1
-  have hcons := lG1_cons w (lG1_boundary s w hw hb).1
+  have henv := (lG1_boundary s w hw hb).1
+  have hcons := lG1_cons w henv
   have hrec := lG1_reconcile_init (roWorld s) (roWl w) hg (world_wl s w hw) hcons hph hr (lG1_cfg_tr s hcfg) hage
   have hro : stepRo s = some { s with gone := false, ro := { csObserve s.ro (roWl w) with sub := some (initSub s.ro (roWl w)), reason := .inRolling } } :=
     lG1_stepRo_status s _ hgone hrec rfl rfl rfl rfl rfl
@@ -523,10 +567,11 @@ theorem lG1_r4 (s : CS) (h : liveInv s = true) (hc : cls s = 4) :
     rfl
   have hst' : sub'.state = .init := by rw [hsub']
   have hidx : sub'.curIdx = 1 := by rw [hsub']; rfl
+  have hne' : (envWl w).updateRevision ≠ (envWl w).currentRevision := by rw [henv]; exact hne
   have hcls : cls (lG1_next s R w) = 5 := by
-    rw [lG1_cls_roll_init _ (envWl w) sub' rfl hph' hr' hs' hst' rfl, if_pos hidx]
+    rw [lG1_cls_roll_init _ (envWl w) sub' rfl hph' hr' hs' hst' rfl, if_pos (by simp [hidx, hne'])]
   refine ⟨_, hround, (liveInv_iff _).2 ⟨hfwd, lG1_next_cfg s R w hw hcfg hst htr, by rw [hcls]; decide,
-    Or.inr (lG1_next_boundary s R w hwok)⟩, ?_, ?_⟩
+    Or.inr (lG1_next_boundary s R w hwok)⟩, ?_, ?_, rfl⟩
   · rw [lG1_mu_roll_init _ (envWl w) sub' rfl hph' hr' hs' hst', lG1_mu_init s w hw hph hr, if_neg hage, lG1_next_steps, hst, hidx]
     have hn : 0 < s.ro.steps.length := List.length_pos_iff.mpr hg.steps
     simp only [stepW]
@@ -542,10 +587,14 @@ theorem lG1_done_big (s' : CS) (h : 12 < mu s') : doneInv s' = true := by
   · have h1 : 1 < mu s' := by omega
     simp [h, h1]
 
+/-- without a BatchRelease the policy invariant is void -/
+theorem lG1_pol_none (s' : CS) (h : s'.br = none) : polInv s' = true := by
+  unfold polInv; rw [h]
+
 theorem round_cls_1 (s : CS) (h : liveInv s = true) (hc : cls s = 1) :
     ∃ s', round s = some s' ∧ liveInv s' = true ∧ mu s' < mu s := by
-  obtain ⟨s', h1, h2, h3, _⟩ := lG1_r1 s h hc
-  exact ⟨s', h1, h2, h3⟩
+  obtain ⟨s', h1, _, h3, _, h5⟩ := lG1_r1 s h hc
+  exact ⟨s', h1, h5, h3⟩
 
 theorem round_cls_2 (s : CS) (h : liveInv s = true) (hc : cls s = 2) :
     ∃ s', round s = some s' ∧ liveInv s' = true ∧ mu s' < mu s := by
@@ -559,24 +608,45 @@ theorem round_cls_4 (s : CS) (h : liveInv s = true) (hc : cls s = 4) :
 
 theorem done_cls_1 (s : CS) (h : liveInv s = true) (_hd : doneInv s = true) (hc : cls s = 1) :
     ∀ s', round s = some s' → doneInv s' = true := by
-  obtain ⟨s1, h1, _, _, h4⟩ := lG1_r1 s h hc
+  obtain ⟨s1, h1, _, _, h4, _⟩ := lG1_r1 s h hc
   intro s' hs'
   rw [h1] at hs'; cases hs'
   exact lG1_done_big _ h4
 
 theorem done_cls_2 (s : CS) (h : liveInv s = true) (_hd : doneInv s = true) (hc : cls s = 2) :
     ∀ s', round s = some s' → doneInv s' = true := by
-  obtain ⟨s1, h1, _, _, h4⟩ := lG1_r2 s h hc
+  obtain ⟨s1, h1, _, _, h4, _⟩ := lG1_r2 s h hc
   intro s' hs'
   rw [h1] at hs'; cases hs'
   exact lG1_done_big _ h4
 
 theorem done_cls_4 (s : CS) (h : liveInv s = true) (_hd : doneInv s = true) (hc : cls s = 4) :
     ∀ s', round s = some s' → doneInv s' = true := by
-  obtain ⟨s1, h1, _, _, h4⟩ := lG1_r4 s h hc
+  obtain ⟨s1, h1, _, _, h4, _⟩ := lG1_r4 s h hc
   intro s' hs'
   rw [h1] at hs'; cases hs'
   exact lG1_done_big _ h4
+
+theorem pol_cls_1 (s : CS) (h : liveInv s = true) (_hp : polInv s = true) (hc : cls s = 1) :
+    ∀ s', round s = some s' → polInv s' = true := by
+  obtain ⟨s1, h1, h2, _⟩ := lG1_r1 s h hc
+  intro s' hs'
+  rw [h1] at hs'; cases hs'
+  exact lG1_pol_none _ h2
+
+theorem pol_cls_2 (s : CS) (h : liveInv s = true) (_hp : polInv s = true) (hc : cls s = 2) :
+    ∀ s', round s = some s' → polInv s' = true := by
+  obtain ⟨s1, h1, _, _, _, h5⟩ := lG1_r2 s h hc
+  intro s' hs'
+  rw [h1] at hs'; cases hs'
+  exact lG1_pol_none _ h5
+
+theorem pol_cls_4 (s : CS) (h : liveInv s = true) (_hp : polInv s = true) (hc : cls s = 4) :
+    ∀ s', round s = some s' → polInv s' = true := by
+  obtain ⟨s1, h1, _, _, _, h5⟩ := lG1_r4 s h hc
+  intro s' hs'
+  rw [h1] at hs'; cases hs'
+  exact lG1_pol_none _ h5
 
 /-- a state of the terminal class, from its parts -/
 theorem lG1_cls40_of (s : CS) (w : CWl) (sub : Sub) (hw : s.wl = some w) (hph : s.ro.phase = .healthy)
@@ -682,7 +752,7 @@ theorem lG1_cls_40 (s : CS) (hc : cls s = 40) :
       · omega
   · rw [ha] at hc
     simp only [if_true] at hc
-    split at hc <;> omega
+    (repeat' split at hc) <;> omega
 
 theorem lG1_next_fix (s : CS) (w : CWl) (sub : Sub) (hgone : s.gone = false) (hbr : s.br = none) (hw : s.wl = some w)
     (henv : envWl w = w) (htick : tick s = s) (hs : s.ro.sub = some sub) (hst : sub.state ≠ .paused) :
@@ -765,5 +835,18 @@ theorem done_cls_40 (s : CS) (h : liveInv s = true) (hd : doneInv s = true) (hc 
   intro s' hs'
   rw [(round_cls_40 s h hc).1] at hs'; cases hs'
   exact hd
+
+theorem pol_cls_30 (s : CS) (h : liveInv s = true) (_hp : polInv s = true) (hc : cls s = 30) :
+    ∀ s', round s = some s' → polInv s' = true := by
+  obtain ⟨w, hw, hmu, hround, _, _⟩ := lG1_round30 s h hc
+  intro s' hs'
+  rw [hround] at hs'; cases hs'
+  exact lG1_pol_none _ rfl
+
+theorem pol_cls_40 (s : CS) (h : liveInv s = true) (hp : polInv s = true) (hc : cls s = 40) :
+    ∀ s', round s = some s' → polInv s' = true := by
+  intro s' hs'
+  rw [(round_cls_40 s h hc).1] at hs'; cases hs'
+  exact hp
 
 end RV.Lemmas.ClosedLoop
